@@ -54,7 +54,9 @@ Definition dec_label (s : sexp) : option label :=
         | _, _, _ => None
         end
       else None
-  | Some (t, []) => if String.eqb t "malformed" then Some (LFrame Malformed) else None
+  | Some (t, []) =>
+      if String.eqb t "malformed" then Some (LFrame Malformed)
+      else if String.eqb t "tick" then Some LTick else None
   | Some (t, [x]) =>
       if String.eqb t "emit" then option_map LEmit (as_nat x)
       else if String.eqb t "srcend" then option_map LSrcEnd (as_nat x)
@@ -266,6 +268,10 @@ Definition obs_events (p : proto) (ls : list label) (k : nat) (l : label) (acked
   | LEnd _ =>
       let (a2, sends) := attribute_all a w in
       (a2, sends ++ VGone :: facts ++ stops ++ (if reg_clean then [VDeregister] else []))
+  | LTick =>
+      (* the harness let one keep-alive period pass; what arrived meanwhile *)
+      let (a2, sends) := attribute_all a w in
+      (a2, VTick :: facts ++ stops ++ sends)
   | _ =>
       let (a2, sends) := attribute_all a w in
       (a2, facts ++ stops ++ sends)
@@ -305,7 +311,7 @@ Definition ids_of (fs : list sframe) : list N :=
 Fixpoint compare_steps (p : proto) (k : nat) (s : st) (ls : list label) (os : list obs) : option sexp :=
   match ls, os with
   | l :: ls', o :: os' =>
-      let (s', out) := step false false p s l in
+      let (s', out) := step false false false p s l in
       if negb (list_eqb ev_eqb (filter is_fact_ev out) (map ev_of_fact (o_facts o))) then
         Some (v_mismatch "resolver-calls" [of_nat k])
       else if negb (list_eqb Nat.eqb (map s_stops (srcs s')) (o_stops o)) then
@@ -326,7 +332,7 @@ Definition split_last {A} (l : list A) : option (list A * A) :=
   match rev l with [] => None | x :: r => Some (rev r, x) end.
 
 Definition compare_frames (p : proto) (ls : list label) (log : list litem) : option sexp :=
-  let mt := live_part (trace false false p ls) in
+  let mt := live_part (trace false false false p ls) in
   let mf := frames mt in
   let obf := observed_frames log in
   if negb (list_eqb sframe_eqb (proj_conn mf) (proj_conn obf)) then Some (v_mismatch "connection-level-frames" [])
@@ -339,7 +345,7 @@ Definition compare_frames (p : proto) (ls : list label) (log : list litem) : opt
 Definition compare_close (p : proto) (ls : list label) (log : list litem) : option sexp :=
   match split_last ls with
   | Some (body, LEnd e) =>
-      let c0 := closing (final false false p body) in
+      let c0 := closing (final false false false p body) in
       match e, c0, observed_close log with
       | EPeer, Some c, [c'] => if Z.eqb c c' then None else Some (v_mismatch "close-code" [SZ c; SZ c'])
       | EAppClose, None, [c'] => if Z.eqb c' 1000 then None else Some (v_mismatch "close-code" [SZ 1000; SZ c'])
@@ -357,6 +363,13 @@ Fixpoint ops_before_init (ls : list label) : bool :=
   | LFrame (Msg TInit _ pl) :: r => if init_ok pl then false else ops_before_init r
   | LFrame (Msg (TStart | TSubscribe | TStop | TComplete) _ _) :: _ => true
   | _ :: r => ops_before_init r
+  end.
+Fixpoint tick_before_init (t : list ev) : bool :=
+  match t with
+  | [] => false
+  | VTick :: _ => true
+  | VInit true :: _ => false
+  | _ :: r => tick_before_init r
   end.
 Definition classes (p : proto) (ls : list label) (t : list ev) : list string :=
   let c (b : bool) (s : string) := if b then [s] else [] in
@@ -378,6 +391,8 @@ Definition classes (p : proto) (ls : list label) (t : list ev) : list string :=
   c (existsb (fun e => match e with VStop _ => true | _ => false end) (after_gone t)) "stopped-by-close" ++
   c (existsb (fun e => match ignored_start t e with Some _ => true | None => false end) t) "duplicate-id-ignored" ++
   c (existsb (fun e => match e with VSend SPong _ => true | _ => false end) t) "ping-pong" ++
+  c (has_label (fun l => match l with LTick => true | _ => false end) ls) "keep-alive-tick" ++
+  c (tick_before_init t) "tick-before-init" ++
   c (ops_before_init ls) "operation-before-init" ++
   c (existsb (fun e => match e with VStart _ _ _ => true | _ => false end) t) "nontrivial".
 
@@ -408,7 +423,7 @@ Definition check (c : sexp) : sexp :=
                 if negb (forallb (Nat.eqb 1) stops) then v_oracle_fail "stop-not-exactly-once" []
                 else if negb reg_clean then v_oracle_fail "not-deregistered" []
                 else if negb (Z.eqb gor 0) then v_oracle_fail "goroutines-left" [SZ gor]
-                else if negb (list_eqb Nat.eqb (map s_stops (srcs (final false false p ls))) stops) then v_mismatch "stop-counters" []
+                else if negb (list_eqb Nat.eqb (map s_stops (srcs (final false false false p ls))) stops) then v_mismatch "stop-counters" []
                 else v_ok ["flood"; "nontrivial"]
               else
               if has_other log then v_oracle_fail "unknown-server-frame" []
@@ -427,7 +442,7 @@ Definition check (c : sexp) : sexp :=
                           match compare_close p ls log with
                           | Some v => v
                           | None =>
-                              if negb (Bool.eqb (negb (registered (final false false p ls))) reg_clean) then v_mismatch "registry" []
+                              if negb (Bool.eqb (negb (registered (final false false false p ls))) reg_clean) then v_mismatch "registry" []
                               else match stall with
                                    | [] => v_ok (classes p ls t ++ (if Z.ltb reg 0 then ["registry-unobserved"] else []))
                                    | _ => v_mismatch "harness-wait-timed-out" stall
